@@ -422,8 +422,11 @@ class AttributeSet(TypedExpression):
             target = (
                 name_expr.model_copy() if name_expr is not None else Identifier(key)
             )
-            self_scope = Scope(self.values, owner=self)
-            context_scopes = tuple(list(scopes_for_owner(self)) + [self_scope])
+            context_scopes = scopes_for_owner(self)
+            if not self.recursive:
+                # A rec set is already the innermost scope of its own chain.
+                self_scope = Scope(self.values, owner=self)
+                context_scopes = tuple(list(context_scopes) + [self_scope])
             set_resolution_context(target, context_scopes)
             return target
         try:
